@@ -23,7 +23,7 @@ from . import rng as rng_lib
 
 ROOT = os.path.dirname(os.path.dirname(os.path.abspath(__file__)))
 EVIDENCE_DIR = os.path.join(ROOT, "evidence")
-REPLAY_DIR = os.path.join(ROOT, "replays")
+REPLAY_DIR = os.environ.get("VERIF_REPLAY_DIR") or os.path.join(ROOT, "replays")
 
 # runs, wall budget (s) for the main batch, determinism sample size.
 TIERS = {
